@@ -132,6 +132,9 @@ class Check:
             job.setdefault('timeout', 300)
             if self.tier == 'thorough':
                 job['timeout'] = max(job['timeout'], 3000)  # the thorough tier shares the cores between more jobs
+                cap = int(os.environ.get('VERIF_THOROUGH_CAP', '0'))
+                if cap:
+                    job['timeout'] = min(job['timeout'], cap)  # optional shorter time box (seconds per job)
             job.setdefault('slice', 25)
             job.setdefault('max_steps', 20_000_000)
             if job.get('hang_is_finding'):
